@@ -515,6 +515,9 @@ class RouteCQC:
             _, min_cost = min(costs.items(), key=lambda x: x[1])
             sigma = [swaps for swaps, cost in costs.items() if cost == min_cost]
 
+        if not sigma:
+            # No candidates, e.g. no two disjoint candidate swaps exist: let the caller fall back.
+            return None
         return (
             None
             if len(sigma) > 1 and timestep + lookahead_radius <= len(two_qubit_ops_ints)
